@@ -149,6 +149,9 @@ func (w *c11World) buildTask(f featuregate.Feature) (*qosmanagerUtil.EvictTaskIn
 
 func (w *c11World) setExecutor(ex qosmanagerUtil.EvictionExecutor) { w.m.evictExecutor = ex }
 
+// round runs the strategy's own round function (feature gates, task building in its fixed order, KillAndEvictPods)
+func (w *c11World) round() { w.m.cpuEvict() }
+
 func (w *c11World) list(feature string) []*qosmanagerUtil.PodEvictInfo {
 	switch feature {
 	case c11FBE:
